@@ -43,22 +43,25 @@ type Failure struct {
 	Index   int64          `json:"index"`
 	Key     string         `json:"key"`
 	Details map[string]any `json:"details"`
+	// worker shard that found it: a history-dependent failure is replayed by re-running that shard up to the case
+	Shard int `json:"shard"`
+	Of    int `json:"of"`
 }
 
 type DomStats = domStats
 
 type domStats struct {
-	Name       string           `json:"domain"`
-	Desc       string           `json:"desc,omitempty"`
-	Size       int64            `json:"size"`
-	Completed  int64            `json:"completed"`
-	Evals      int64            `json:"evaluations"`
-	Nontrivial int64            `json:"nontrivial"`
-	Outcomes   map[string]int64 `json:"outcomes"`
-	Counters   map[string]int64 `json:"counters,omitempty"`
-	Samples    []any            `json:"samples,omitempty"`
-	Warnings   []string         `json:"warnings,omitempty"`
-	NotExh     string           `json:"not_exhaustive,omitempty"`
+	Name       string                     `json:"domain"`
+	Desc       string                     `json:"desc,omitempty"`
+	Size       int64                      `json:"size"`
+	Completed  int64                      `json:"completed"`
+	Evals      int64                      `json:"evaluations"`
+	Nontrivial int64                      `json:"nontrivial"`
+	Outcomes   map[string]int64           `json:"outcomes"`
+	Counters   map[string]int64           `json:"counters,omitempty"`
+	Samples    []any                      `json:"samples,omitempty"`
+	Warnings   []string                   `json:"warnings,omitempty"`
+	NotExh     string                     `json:"not_exhaustive,omitempty"`
 	Sets       map[string]map[string]bool `json:"sets,omitempty"`
 }
 
@@ -244,32 +247,7 @@ func (ck *Check) runWorker(tier string, seed int64, shard, of int, outPath strin
 	var progress int64
 	go func() {
 		defer close(done)
-		unit := 0
-		for _, d := range ck.active(tier) {
-			st := newStats(d)
-			res.Stats = append(res.Stats, st)
-			c := &Ctx{Tier: tier, Seed: seed, cur: st, fails: &fails, at: &at, curDom: d.Name}
-			curName.Store(d.Name)
-			for lo := int64(0); lo < d.Size; lo += d.Chunk {
-				hi := lo + d.Chunk
-				if hi > d.Size {
-					hi = d.Size
-				}
-				mine := unit%of == shard
-				unit++
-				if !mine {
-					continue
-				}
-				atomic.StoreInt64(&at, lo)
-				t0 := time.Now()
-				d.Run(c, lo, hi)
-				if os.Getenv("VERIF_TIMING") != "" && time.Since(t0) > 200*time.Millisecond {
-					fmt.Fprintf(os.Stderr, "TIMING %s [%d,%d) %.1fs\n", d.Name, lo, hi, time.Since(t0).Seconds())
-				}
-				st.Completed += hi - lo
-				atomic.AddInt64(&progress, 1)
-			}
-		}
+		fails = ck.runShard(tier, seed, shard, of, "", -1, &res, &at, func(n string) { curName.Store(n); atomic.AddInt64(&progress, 1) })
 	}()
 	// watchdog: no change of (at, progress) for Horizon => hang at case `at`.
 	lastAt, lastP := int64(-2), int64(-1)
@@ -303,6 +281,51 @@ loop:
 		os.Exit(2)
 	}
 	os.Exit(0)
+}
+
+// runShard runs the chunks of worker shard/of in order; stopDomain/stopIndex (if set) end the run after that case's chunk.
+func (ck *Check) runShard(tier string, seed int64, shard, of int, stopDomain string, stopIndex int64, res *workerOut, at *int64, progress func(string)) []Failure {
+	var fails []Failure
+	var dummyAt int64
+	if at == nil {
+		at = &dummyAt
+	}
+	unit := 0
+	for _, d := range ck.active(tier) {
+		st := newStats(d)
+		if res != nil {
+			res.Stats = append(res.Stats, st)
+		}
+		c := &Ctx{Tier: tier, Seed: seed, cur: st, fails: &fails, at: at, curDom: d.Name}
+		if progress != nil {
+			progress(d.Name)
+		}
+		for lo := int64(0); lo < d.Size; lo += d.Chunk {
+			hi := lo + d.Chunk
+			if hi > d.Size {
+				hi = d.Size
+			}
+			mine := unit%of == shard
+			unit++
+			if !mine {
+				continue
+			}
+			atomic.StoreInt64(at, lo)
+			t0 := time.Now()
+			d.Run(c, lo, hi)
+			if os.Getenv("VERIF_TIMING") != "" && time.Since(t0) > 200*time.Millisecond {
+				fmt.Fprintf(os.Stderr, "TIMING %s [%d,%d) %.1fs\n", d.Name, lo, hi, time.Since(t0).Seconds())
+			}
+			st.Completed += hi - lo
+			if progress != nil {
+				progress(d.Name)
+			}
+			if d.Name == stopDomain && stopIndex >= lo && stopIndex < hi {
+				return fails
+			}
+		}
+	}
+	return fails
 }
 
 func (ck *Check) doReplay(path string, seed int64) int {
@@ -340,6 +363,17 @@ func (ck *Check) doReplay(path string, seed int64) int {
 		if len(fails) > 0 {
 			fmt.Printf("DIFFERENT-FAILURE keys=%v\n", failKeys(fails))
 			return 1
+		}
+		if art.Case.Of > 0 {
+			// history-dependent? re-run the worker shard that found it, up to and including the case
+			fmt.Printf("case alone passes; re-running worker shard %d/%d up to the case (history-dependent failures)\n", art.Case.Shard, art.Case.Of)
+			fs := ck.runShard(art.Tier, art.Seed, art.Case.Shard, art.Case.Of, art.Case.Domain, art.Case.Index, nil, nil, nil)
+			for _, f := range fs {
+				if f.Key == art.Case.Key && f.Domain == art.Case.Domain && f.Index == art.Case.Index {
+					fmt.Printf("REPRODUCED-WITH-HISTORY key=%s (the case fails only after the preceding cases of its shard ran in the same process)\n", f.Key)
+					return 1
+				}
+			}
 		}
 		fmt.Println("NOT-REPRODUCED: case passes on this tree")
 		return 0
@@ -472,6 +506,9 @@ func (ck *Check) master(tier string, seed int64, evidence, replays, known string
 			}
 			m.Warnings = append(m.Warnings, s.Warnings...)
 		}
+		for k := range r.out.Fails {
+			r.out.Fails[k].Shard, r.out.Fails[k].Of = r.i, nw
+		}
 		fails = append(fails, r.out.Fails...)
 		if r.out.Hang != nil {
 			fails = append(fails, *r.out.Hang)
@@ -547,8 +584,9 @@ func (ck *Check) master(tier string, seed int64, evidence, replays, known string
 			}
 		}
 		if f.Index >= 0 && f.Key != "hang" {
-			rep := 0
-			for k := 0; k < 5; k++ {
+			rep, want := 0, 5
+			for k := 0; k < want; k++ {
+				t0 := time.Now()
 				cmd := exec.Command(self, "-replay", path)
 				cmd.Env = append(os.Environ(), fmt.Sprintf("VERIF_SEED=%d", seed))
 				if err := cmd.Run(); err != nil {
@@ -556,9 +594,12 @@ func (ck *Check) master(tier string, seed int64, evidence, replays, known string
 						rep++
 					}
 				}
+				if k == 0 && time.Since(t0) > 10*time.Second {
+					want = 3 // expensive (history) replays: 3 re-runs
+				}
 			}
-			if rep != 5 {
-				fmt.Fprintf(os.Stderr, "INFRASTRUCTURE: failure %s/%d key=%s reproduced only %d/5 times; not reported as a violation\n", f.Domain, f.Index, f.Key, rep)
+			if rep != want {
+				fmt.Fprintf(os.Stderr, "INFRASTRUCTURE: failure %s/%d key=%s reproduced only %d/%d times; not reported as a violation\n", f.Domain, f.Index, f.Key, rep, want)
 				return 2
 			}
 		}
